@@ -180,7 +180,7 @@ func runPairing(c *mon.Ctx, p *pairings.Pairing) {
 				continue
 			}
 			c.Check(v, N+"/"+v+"/value-mismatch/"+t.cls, F.Eq(got, want), func() string {
-				return fmt.Sprintf("%s != e(G1,G2)^(sum a_i b_i); got %s…", desc(v)(), F.String(got)[:60])
+				return fmt.Sprintf("%s != e(G1,G2)^(sum a_i b_i); got %s…", desc(v)(), head60(F.String(got)))
 			})
 			c.Class(N + "/" + v + "/" + t.cls)
 		}
@@ -217,6 +217,13 @@ func runPairing(c *mon.Ctx, p *pairings.Pairing) {
 		c.Check(v, N+"/"+v+"/missing-error/length-mismatch", err != nil, func() string { return v + " length mismatch returned no error" })
 	}
 	c.Class(N + "/errors")
+}
+
+func head60(s string) string {
+	if len(s) > 60 {
+		return s[:60]
+	}
+	return s
 }
 
 func main() {
